@@ -70,7 +70,10 @@ def seeds(keys):
     snap = {
         # (a torn record - what an interrupted append leaves - sits between two records of a: both readers skip it)
         ref.bucket_rel(a): ("f", E(tomb(a, 10 ** 13)) + E(rec(a, "v1")) + E(rec(a, "v1"))[:41] + E(rec(a, "v2")) + E(rec("foreign", "v1"))),
-        ref.bucket_rel(b): ("f", E(rec(b, "v1")) + E(tomb(b, 1)) + E(rec(b, "v2"), 1)),
+        # (b's newest record carries a parseable but unusable integrity - a one-byte digest: it counts for nobody, neither
+        # for the lookups nor for the listing, so b reads as v2 everywhere)
+        ref.bucket_rel(b): ("f", E(rec(b, "v1")) + E(tomb(b, 1)) + E(rec(b, "v2"), 1) +
+                            E({"key": b, "integrity": "sha256-YQ==", "time": 77, "size": 1, "metadata": None, "raw_metadata": None})),
         ref.bucket_rel(c): ("f", E(rec(c, "v1")) + E(rec(c, "v2")) + E(tomb(c, 2 ** 100))),
         ref.content_rel(s["v1"]): ("f", d["v1"]),
         ref.content_rel(s["v2"]): ("f", d["v2"]),
